@@ -4,8 +4,7 @@ import EAO.Spec.UnitCommit
 # EAO.Lemmas.UC — unit commitment (property C06)
 
 * `RowsF` — Boolean reading of the rows the builder generates for minimum runtime / minimum downtime /
-  declared initial state (including the two "spill" clauses for a horizon shorter than the
-  remaining forced run), and `commit_rowsF_iff_specF`: some start-flag vector satisfies the rows iff
+  declared initial state, and `commit_rowsF_iff_specF`: some start-flag vector satisfies the rows iff
   the on/off pattern satisfies the run-length specification `SpecF`.
 * `st` — the automaton of `EAO.Spec.UnitCommit` as an indexed state function; `specF_iff_st`:
   under the constructor's guard the specification holds iff the automaton does not get stuck;
@@ -22,22 +21,19 @@ def RowsF (p : UCP) (T : Nat) (on start : Nat → Bool) : Prop :=
   (p.tar = 0 → start 0 = on 0) ∧
   (∀ t, t < T → ∀ i, 1 ≤ i → i < p.R → i ≤ t → start (t - i) = true → on t = true) ∧
   (0 < p.tar → ∀ t, t < p.R - p.tar → t < T → on t = true) ∧
-  (0 < p.tar → ∀ t, T + t < p.R - p.tar → t < T → start t = true) ∧
   (∀ t, t < T → ∀ i, 1 ≤ i → i < p.D → i < t →
       on t = true → on (t-i) = false → on (t-i-1) = true → False) ∧
   (∀ t, t < T → 1 ≤ t → t < p.D → p.tao = 0 → on t = true → on 0 = false → False) ∧
-  (0 < p.tao → ∀ t, t < p.D - p.tao → t < T → on t = false) ∧
-  (0 < p.tao → ∀ t, T + t < p.D - p.tao → t < T → start t = false)
+  (0 < p.tao → ∀ t, t < p.D - p.tao → t < T → on t = false)
 
-/-- the switch-on indicator, raised to 1 where the spilled lower bound forces it -/
-def startOf (p : UCP) (T : Nat) (on : Nat → Bool) (t : Nat) : Bool :=
-  (if t = 0 then (decide (p.tar = 0) && on 0) else (on t && !on (t-1))) ||
-    (decide (0 < p.tar) && decide (T + t < p.R - p.tar))
+/-- the switch-on indicator (the argument `T` is unused; kept for the callers) -/
+def startOf (p : UCP) (_T : Nat) (on : Nat → Bool) (t : Nat) : Bool :=
+  if t = 0 then (decide (p.tar = 0) && on 0) else (on t && !on (t-1))
 
 theorem rowsF_imp_specF (p : UCP) (T : Nat) (on start : Nat → Bool) :
     RowsF p T on start → SpecF p T on := by
   intro h
-  obtain ⟨hS1, hS0, hR, hR0, _, hD, hD0, hDinit, _⟩ := h
+  obtain ⟨hS1, hS0, hR, hR0, hD, hD0, hDinit⟩ := h
   refine ⟨?_, ?_, hR0, ?_, ?_, hDinit⟩
   · intro s hsT hs hon hoff k hk hskT
     obtain ⟨s', rfl⟩ : ∃ s', s = s' + 1 := ⟨s - 1, by omega⟩
@@ -74,29 +70,23 @@ theorem specF_imp_rowsF (p : UCP) (T : Nat) (on : Nat → Bool) :
     SpecF p T on → RowsF p T on (startOf p T on) := by
   intro h
   obtain ⟨hU1, hU0, hUi, hD1, hD0, hDi⟩ := h
-  refine ⟨?_, ?_, ?_, hUi, ?_, ?_, ?_, hDi, ?_⟩
+  refine ⟨?_, ?_, ?_, hUi, ?_, ?_, hDi⟩
   · intro t _ hon hoff
     simp [startOf, hon, hoff]
   · intro htar
     simp [startOf, htar]
   · intro t htT i hi hiR hit hst
     unfold startOf at hst
-    rw [Bool.or_eq_true] at hst
-    rcases hst with hst | hst
-    · by_cases h0 : t - i = 0
-      · have hti : i = t := by omega
-        rw [if_pos h0] at hst
-        simp only [Bool.and_eq_true, decide_eq_true_eq] at hst
-        exact hU0 hst.1 hst.2 t (by omega) htT
-      · rw [if_neg h0] at hst
-        simp only [Bool.and_eq_true, Bool.not_eq_true'] at hst
-        have := hU1 (t-i) (by omega) (by omega) hst.1 hst.2 i hiR (by omega)
-        have h1 : t - i + i = t := by omega
-        rw [h1] at this; exact this
-    · simp only [Bool.and_eq_true, decide_eq_true_eq] at hst
-      exact hUi hst.1 t (by omega) htT
-  · intro htar t ht _
-    simp [startOf, htar, ht]
+    by_cases h0 : t - i = 0
+    · have hti : i = t := by omega
+      rw [if_pos h0] at hst
+      simp only [Bool.and_eq_true, decide_eq_true_eq] at hst
+      exact hU0 hst.1 hst.2 t (by omega) htT
+    · rw [if_neg h0] at hst
+      simp only [Bool.and_eq_true, Bool.not_eq_true'] at hst
+      have := hU1 (t-i) (by omega) (by omega) hst.1 hst.2 i hiR (by omega)
+      have h1 : t - i + i = t := by omega
+      rw [h1] at this; exact this
   · intro t htT i hi hiD hit hon hoff hon'
     have := hD1 (t-i) (by omega) (by omega) hoff hon' i hiD (by omega)
     have h1 : t - i + i = t := by omega
@@ -105,22 +95,6 @@ theorem specF_imp_rowsF (p : UCP) (T : Nat) (on : Nat → Bool) :
   · intro t htT ht1 htD htao hon hoff
     have := hD0 htao hoff t htD htT
     rw [hon] at this; exact Bool.noConfusion this
-  · intro htao t ht htT
-    have hoffj : ∀ j, j < T → on j = false := fun j hj => hDi htao j (by omega) hj
-    have hspill : (decide (0 < p.tar) && decide (T + t < p.R - p.tar)) = false := by
-      cases hb : (decide (0 < p.tar) && decide (T + t < p.R - p.tar)) with
-      | false => rfl
-      | true =>
-        exfalso
-        simp only [Bool.and_eq_true, decide_eq_true_eq] at hb
-        have h1 := hUi hb.1 t (by omega) htT
-        rw [hoffj t htT] at h1; exact Bool.noConfusion h1
-    unfold startOf
-    rw [hspill, Bool.or_false]
-    by_cases h0 : t = 0
-    · subst h0
-      rw [if_pos rfl, hoffj 0 htT, Bool.and_false]
-    · rw [if_neg h0, hoffj t htT, Bool.false_and]
 
 theorem commit_rowsF_iff_specF (p : UCP) (T : Nat) (on : Nat → Bool) :
     (∃ start, RowsF p T on start) ↔ SpecF p T on :=
